@@ -286,6 +286,7 @@ func (c *c18) check(cs *Case, record bool) *Case {
 	var occ []occurrence
 	allClean := true
 	hasInclude := false
+	rootFirstInclude := -1 // offset of the first INCLUDE keyword of the root file
 	for _, f := range reached {
 		oo, incs, clean := scanOccurrences(f, p.content(f), f == p.absRoot())
 		if !clean {
@@ -297,6 +298,9 @@ func (c *c18) check(cs *Case, record bool) *Case {
 		for _, o := range oo {
 			if banned[o.kind] {
 				occ = append(occ, o)
+			}
+			if o.inRoot && o.kind == int(directive.Include) && (rootFirstInclude < 0 || o.offset < rootFirstInclude) {
+				rootFirstInclude = o.offset
 			}
 		}
 	}
@@ -440,6 +444,28 @@ func (c *c18) check(cs *Case, record bool) *Case {
 		}
 		if !located {
 			return violation(cs, "banned-wrong-location", strings.Join(kindList, "+"), fmt.Sprintf("'not allowed' diagnostic (index %d, line %d, quote %q) is not at any occurrence of a banned kind (first: %s offset %d)", got.Index, got.Line, got.Quote, occ[0].file, occ[0].offset))
+		}
+	}
+	if !ref.Accepted && ref.NewErr == "" && got.NewErr == "" {
+		// The project has another fault too. Whatever is wrong *behind* the first banned directive
+		// cannot be what is reported: decidable without knowing the scan order across files when
+		// that directive is in the root file in front of every INCLUDE, and the fault reported
+		// without the option lies in an included file or further down in the root file.
+		var first *occurrence
+		for i := range occ {
+			if occ[i].inRoot && (first == nil || occ[i].offset < first.offset) {
+				first = &occ[i]
+			}
+		}
+		if first != nil && (rootFirstInclude < 0 || first.offset <= rootFirstInclude) {
+			later := ref.Msg != ref.RawMsg || int(ref.Index) > first.offset
+			if later {
+				ln, _ := lineOf(p.content(first.file), first.offset)
+				if !strings.Contains(got.RawMsg, "not allowed") || int(got.Index) != first.offset || int(got.Line) != ln || got.Msg != got.RawMsg {
+					return violation(cs, "banned-not-first", strings.Join(kindList, "+"), fmt.Sprintf("the first banned directive (%s, root file offset %d, line %d) comes before what is reported without the option (index %d: %q), yet the diagnostic with the option is not 'not allowed' at that directive: index %d line %d %q",
+						directive.Enumeration(first.kind).String(), first.offset, ln, ref.Index, ref.Msg, got.Index, got.Line, got.Msg))
+				}
+			}
 		}
 	}
 	// independence from the state of the disk: with INCLUDE banned, the result is the same
